@@ -331,7 +331,7 @@ def configs(tier):
     if tier == 'quick':
         # (layout, max queue length, length up to which every entry order is
         # tried)
-        plan = [('D2', 3, 3), ('D3', 2, 2), ('S3', 3, 2), ('SH3', 2, 0)]
+        plan = [('D2', 3, 2), ('D3', 2, 2), ('S3', 3, 2), ('SH3', 2, 0)]
     else:
         plan = [('D2', 4, 3), ('D3', 4, 3), ('S3', 4, 3), ('SH3', 3, 3),
                 ('SS3', 3, 3)]
